@@ -7,37 +7,37 @@ ROOT = os.path.dirname(os.path.dirname(os.path.abspath(__file__)))
 X = "Sampling beyond the enumerated sub-spaces: held on everything explored, not a proof."
 CHECKS = {
  "C01": ("proptest matrix classes + full (class,n) grid, dd residual oracle with a-priori backward-error bound, all 6 entry points",
-         "Every generated nonsingular system (13 matrix classes incl. symmetric indefinite with positive diagonal, route-flip, nearly symmetric, row/column-graded and singular-value-graded to cond 1e10; random and consistent right-hand sides; each problem also rescaled exactly by powers of two down to 2^-200; n 1..32; 1..6 right-hand sides) is pushed through all six solve/invert entry points; residuals are evaluated in double-double against 64 n eps g (|A||x|+|b|). " + X,
+         "Every generated nonsingular system (15 matrix classes incl. symmetric indefinite with positive diagonal, exactly symmetric indefinite graded to cond 1e10, sparse diagonally dominant with exact zeros (arrowhead, grid Laplacian, bands with holes), route-flip, nearly symmetric, row/column-graded and singular-value-graded to cond 1e10; random and consistent right-hand sides; each problem also rescaled exactly by powers of two down to 2^-200; n 1..32; 1..6 right-hand sides) is pushed through all six solve/invert entry points; residuals are evaluated in double-double against 64 n eps g (|A||x|+|b|). " + X,
          "Trusts the oracle's own LU/Jacobi/dd arithmetic (self-tested at start-up); nonsingular means cond <= 1e12 by the oracle's estimate.", "4/C01"),
  "C02": ("per-distribution/per-clause proptest + grids; textbook log-space densities via glibc lgamma, tanh-sinh quadrature of the library's own pdf, dd pmf sums",
-         "76 sub-checks (13 univariate laws + MVN x {formula, outside-support, ln_pdf, total mass, mean, variance, Normal cdf}) compare the library against independent closed forms and integrate its own density; two thirds of the objects are reached by re-parameterising another valid object (update / setters) rather than by the constructor. " + X,
+         "76 sub-checks (13 univariate laws + MVN x {formula, outside-support, ln_pdf, total mass, mean, variance, Normal cdf}) compare the library against independent closed forms and integrate its own density; two thirds of the objects are reached by re-parameterising another valid object (update / setters) rather than by the constructor, and a third are first offered one invalid setter value (panic caught) which must not be applied; ln_pdf must be the logarithm of the library's own pdf or of the textbook density. " + X,
          "Trusts glibc lgamma/erfc and the harness quadrature (gated by integrating the textbook density to 1 with the same nodes); parameter points where textbook factors are not representable are only required not to panic.", "4/C02"),
  "C03": ("parallel statistical driver: DKW band (alpha=1e-12) of n=2e5 (thorough 4e6) seeded draws against independent CDFs; termination watchdog; MVN whitening",
          "Every distribution x algorithm regime (grid of all branch switch points + proptest parameters; half of the objects re-parameterised by update before sampling; MVN covariances from 1e-16 to 1e16) is sampled from a fixed alea seed; support, integrality, bulk shapes and the DKW sup-distance to the harness's own CDFs (incomplete gamma/beta, erfc) are checked; a single call without progress for 30 s is a termination violation. Detectable effect: sup-distance > 0.0084 quick / 0.0019 thorough.",
          "CDF oracles self-tested against 83 SciPy reference values at start-up; false-alarm probability < 2e-9 per run by the DKW inequality; smaller sampler biases than the band pass.", "4/C03"),
  "C04": ("exhaustive lengths 0..=40 x 45 operator forms x all factorizations + proptest lengths to 1e4; bit-exact scalar reference, poison allocator; dd reductions",
-         "All operator/ownership/assign forms and 31 maps are compared bit for bit with the scalar f64 operation at every length 0..40 (every residue of the unroll width) for Vector and every Matrix factorization incl. Matrix::empty(); mismatches must panic; reductions against double-double within proven rounding bounds. Exhaustive on lengths 0..40, sampled beyond.",
+         "All operator/ownership/assign forms and 31 maps are compared bit for bit with the scalar f64 operation at every length 0..40 (every residue of the unroll width) for Vector and every Matrix factorization incl. Matrix::empty(); mismatches must panic; data include a rounding-critical kind (half-way cases and neighbours, integers around 2^52..2^53); reductions against double-double within proven rounding bounds, also on all-zero / half-zero data and log-domain data with -inf entries. Exhaustive on lengths 0..40, sampled beyond.",
          "Trusts host IEEE arithmetic and libm being the same functions the library calls (black_boxed exponents); NaN payloads not compared.", "4/C04"),
  "C05": ("exhaustive shapes 1..9^3 x 4 flags x all block sizes with exact integer oracle + proptest real shapes; Dot trait fan-out; non-conformable grid",
-         "matmul, matmul_blocked (every block size 1..2 max dim), xtx and every Dot method/ownership combination are compared with a naive dd triple loop: equality for integer entries, l eps sum|a||b| for reals (also with one operand scaled to 2^-80 and the other to 2^60); every non-conformable stored-shape combination up to 5^4 must panic. Exhaustive on shapes <= 9, sampled to 64 (128).",
+         "matmul, matmul_blocked (every block size 1..2 max dim), xtx and every Dot method/ownership combination are compared with a naive dd triple loop: equality for integer entries, l eps sum|a||b| for reals (also with one operand scaled to 2^-80 and the other to 2^60); wherever m = n also with the very same buffer / object as both operands; every non-conformable stored-shape combination up to 5^4 must panic. Exhaustive on shapes <= 9, sampled to 64 (128).",
          "Integer entries are small enough that all products/sums are exact in f64.", "4/C05"),
  "C06": ("proptest over family x design x weights/offsets/penalty/tolerance with harness-simulated responses; Newton-decrement certificate and closed-form LS/deviance/covariance oracles",
-         "42 sub-checks (clause x family, standard errors also for ridge fits, re-use of a GLM value for a second fit): whenever fit returns Ok the penalised score at the returned coefficients must have Newton decrement <= 100 tol max(D,1); Gaussian fits equal (weighted ridge) least squares; deviance, dispersion, covariance/standard errors, predictions, permutation invariance and Err-on-non-convergence are checked against the harness's own recomputation. " + X,
+         "42 sub-checks (clause x family, standard errors also for ridge fits, deviance also for weighted fits under either reading, dispersion also for weights summing to n, re-use of a GLM value for a second fit): whenever fit returns Ok the penalised score at the returned coefficients must have Newton decrement <= 100 tol max(D,1); Gaussian fits equal (weighted ridge) least squares; deviance, dispersion, covariance/standard errors, predictions, permutation invariance and Err-on-non-convergence are checked against the harness's own recomputation. " + X,
          "Only successful fits on problems whose MLE exists (by the harness's own damped scoring) are judged; the reported deviance/information may lag one scoring step (tolerated, made exact by replaying the previous iterate); penalised information for alpha>0 and weighted dispersion are outside the statement.", "4/C06"),
  "C07": ("proptest + enumerated monomial basis; exact dd antiderivatives, 21-member integrand catalogue with known max|f''|; measured evaluation counts in the rounding allowance",
-         "Polynomial exactness (trapz deg<=1 for n=1..4096, Romberg k levels deg<=2k-1, quad5 deg<=9), linearity, limit swap, the (b-a)h^2/12 max|f''| bound, Romberg tolerance (100 tau) on a resolved catalogue and on degree<=5 polynomials built to make the two coarsest estimates coincide, and sample-array trapezoid against dd sums. " + X,
+         "Polynomial exactness (trapz deg<=1 for n=1..4096, Romberg k levels deg<=2k-1, quad5 deg<=9), linearity, limit swap, the (b-a)h^2/12 max|f''| bound, Romberg tolerance (100 tau) on a resolved catalogue and on degree<=5 polynomials built to make the two coarsest estimates coincide, Romberg exactness also on polynomials built to vanish on the coarse nodes (bit-exact ties), sample-array trapezoid against dd sums incl. dyadic grids with displaced interior nodes; the integrand handed to the rules is NaN outside the interval of integration. " + X,
          "Catalogue intervals are restricted to resolved (non-aliasing) ranges, as any adaptive rule can be fooled by many-period integrands.", "4/C07"),
  "C08": ("proptest over 9 data classes + enumerated lengths 1..40; exact rational (i128) / dd definitions; kappa-scaled a-priori bounds; shift/scale metamorphic relations",
          "32 sub-checks: each statistic (free function, Vector and Matrix wrappers; covariances also with the same slice passed twice) against its definition in exact integer or double-double arithmetic within the bound of a stable algorithm, plus shift invariance (offsets to 1e8 sd), scaling (data grids 2^-70..2^20, factors 2^-40..2^10), first-occurrence indices and non-uniform bin centres. " + X,
          "Bounds carry 8x slack over the proven worst case of an updating algorithm; a formula needing kappa^2 eps fails on offset data by design.", "4/C08"),
  "C09": ("stratified (quick) / exhaustive-f32 (thorough) sweeps on 16 threads against glibc tgamma/erf, own dd digamma, exact factorials; identities",
-         "gamma (positive, reflection with pole-proximity scaling, recurrence, factorial), beta (value, symmetry), digamma (value, recurrence, harmonic numbers), erf (value 1.5e-7, odd, bounded). Thorough enumerates every f32 argument in the stated ranges (8e9 evaluations); quick a stratified 1.8e7 subsample incl. neighbourhoods of integers, half-integers, 143 and 171.",
+         "gamma (positive, reflection with pole-proximity scaling, recurrence, factorial), beta (value, symmetry; also the complete quarter-integer grid below 80), digamma (value, recurrence, harmonic numbers), erf (value 1.5e-7, odd, bounded). Thorough enumerates every f32 argument in the stated ranges (8e9 evaluations); quick a stratified 1.8e7 subsample incl. neighbourhoods of integers, half-integers, 143 and 171.",
          "Trusts glibc tgamma/lgamma/erf to a few ulp; arguments within 1e-6|x| of a pole are skipped and counted.", "4/C09"),
  "C10": ("trajectory reconstruction: objectives as serialisable expression trees interpreted over reverse::Var (library) and forward-mode duals (reference); published Adam/SGD recurrences for every budget k; LM descent / linear-model / covariance oracles",
-         "For every budget k = 0..k_max the library's k-th iterate must equal the published recurrence (Kingma-Ba Adam with bias correction; plain, momentum, Nesterov SGD) within 1e-10(1+|x|) on prefixes where six perturbed shadow references agree (chaotic continuations truncated, never failed); early stopping only once the reference has stopped changing relative to its own size (oscillating, sign-flip, tiny-gradient and tiny-scale classes); determinism bit-exact; LM: RSS never above the start, least-squares solution reached on linear models within 100 steps, covariance s^2 (J'J)^-1. " + X,
+         "For every budget k = 0..k_max the library's k-th iterate must equal the published recurrence (Kingma-Ba Adam with bias correction; plain, momentum, Nesterov SGD) within 1e-10(1+|x|) on prefixes where six perturbed shadow references agree (chaotic continuations truncated, never failed); early stopping only once the reference has stopped changing relative to its own size (oscillating, sign-flip, tiny-gradient and tiny-scale classes); determinism bit-exact (also for clones); Adam::default() / with_stepsize equal Adam::new with the documented Kingma-Ba defaults; budgets beyond 200 (400..800 quick, to 2000 thorough) with slow first-moment decay; LM: RSS never above the start, least-squares solution reached on linear models (basis columns scaled 0.01..1000, cond(J'J) <= 1e9, gradient tolerance 1e-12 and the default 1e-6) within 100 steps, covariance s^2 (J'J)^-1. " + X,
          "Objectives avoid two defects of the `reverse` dependency (f64/Var derivative weight, powi(0)); about 12 % of trajectory prefixes are truncated by the chaos gate.", "4/C10"),
  "C11": ("exhaustive permutation matrices of order <=6 + proptest matrix classes; dd reconstruction bounds, Bareiss exact determinant, inversion-count sign",
-         "Cholesky structure/reconstruction/rejection of non-PD input, LU permutation/|l|<=1/reconstruction, slice-vs-Matrix identity, det sign and value (exact for integer matrices n<=12), triangular solves. Exhaustive on the 873 permutation matrices, sampled elsewhere.",
+         "Cholesky structure/reconstruction/rejection of non-PD input, LU permutation/|l|<=1/reconstruction, slice-vs-Matrix identity, det sign and value (exact for integer matrices n<=12), triangular solves (right-hand sides with unit-vector / leading-zero / sparse patterns, zeros inside the triangle). Exhaustive on the 873 permutation matrices, sampled elsewhere.",
          "Rejection is only demanded for clearly non-PD input (lambda_min <= -1e-6 max|lambda|, non-positive diagonal, asymmetry >= 1e-3).", "4/C11"),
  "C12": ("exhaustive enumeration of small shape pairs + proptest random shapes + libFuzzer (thorough), bit-exact NumPy-broadcast reference model",
          "All 1296 shape pairs with dims 1..6 x 4 operators x 3 operand kinds x 4 ownership forms, and six large shapes (16k-90k elements) x 9 broadcast patterns, are enumerated in every run and compared bit for bit with an index-level reference model; larger shapes are sampled by proptest and by a coverage-guided libFuzzer campaign in the thorough tier. Exhaustive on the small space, sampling beyond it.",
@@ -52,19 +52,19 @@ CHECKS = {
          "After every step all registers must satisfy nrows*ncols == len and equal the model bit for bit; impossible requests must panic, possible ones must not. 110848 enumerated two-step programs + random programs whose entries are also rescaled by 2^-300..2^200 (quick) + libFuzzer campaign (thorough); constructors (eye, diag, toeplitz, vandermonde, design, linspace, arange, rotations) and predicates (square, symmetric, triangular, design, close_to incl. opposite signs at any magnitude, ==) by definition. " + X,
          "Predicates are not judged inside their own tolerance band; triangular predicates only on square matrices.", "4/C15"),
  "C16": ("proptest over knot grids/ordinate classes/targets incl. +-1 ulp around knots and beyond both ends; dd chord/extrapolation oracle; mode-by-side sub-checks",
-         "Knot exactness, chord within 4 eps(|yi|+|yi+1|), Panic/Fill/Extrapolate on the left and on the right (fill values bit-identical), no panic in range, output order, checked variant rejects unsorted abscissae (down to one-ulp descents and tiny scales) and length mismatch; libFuzzer campaign in the thorough tier. " + X,
+         "Knot exactness (a zero knot is also asked for with the zero of the other sign), chord within 4 eps(|yi|+|yi+1|), Panic/Fill/Extrapolate on the left and on the right (fill values bit-identical), no panic in range, output order, checked variant rejects unsorted abscissae (down to one-ulp descents and tiny scales) and length mismatch; libFuzzer campaign in the thorough tier. " + X,
          "Domain: <= 200 knots, |x| <= 1e15, non-zero |y| in [1e-200,1e200], spacing ratio <= 1e6.", "4/C16"),
  "C17": ("stratified / exhaustive-f32 sweeps for logistic/logit, proptest for softmax and Box-Cox, exhaustive u128 oracle for binomial coefficients n<=67",
          "logistic range/monotone/reflection/logit round trip (relative bound in the lower tail), logit rejection, softmax finite/sum/order/shift/value for entries in +-1e4, Box-Cox against expm1(lambda ln x)/lambda incl. |lambda|<1e-8 and shifted domain, binom_coeff exact whenever it fits u64 with symmetry and Pascal. Exhaustive for (n,k), n<=67; thorough enumerates every f32 in +-745 and [0,1].",
          "Binomial values that do not fit in 64 bits are outside the statement.", "4/C17"),
  "C18": ("model-based testing: histories of constructor/setter/update ops with valid and invalid targets vs a freshly constructed twin (bit-exact pdf/mean/var/seeded streams); exhaustive class grid + proptest per distribution",
-         "13 distributions x (exhaustive grid of all single and ordered-pair mutations by target class + random histories up to 20 (60) ops): valid targets must succeed, invalid must panic, object must equal its twin after every step, seeded sampling reproducible regardless of other objects, bulk sample_n / sample_matrix of up to 300000 draws reproducible from the seed; libFuzzer campaign over byte-decoded histories in the thorough tier. " + X,
+         "13 distributions x (exhaustive grid of all single and ordered-pair mutations by target class + random histories up to 20 (60) ops): valid targets must succeed, invalid must panic, object must equal its twin after every step, seeded sampling reproducible regardless of other objects, bulk sample_n / sample_matrix of up to 300000 draws reproducible from the seed, NaN treated alike by constructor / setter / update, Default::default() objects in-domain, draws of an interval law after a rejected update have positive density under the object itself; every history runs on a watched thread (a history that does not terminate is a violation, not a time-out); libFuzzer campaign over byte-decoded histories in the thorough tier. " + X,
          "A rejected bulk update of a two-parameter law is only required to leave an in-domain object; identical panics on object and twin count as identical behaviour.", "4/C18"),
  "C19": ("enumerated lengths 1..40 x data classes x seeds + proptest; bit-pattern multiset/pairing oracles; Bernstein/DKW position-uniformity bounds at alpha=1e-12",
-         "bootstrap count/length/membership and per-position uniformity, jackknife exact leave-one-out, shuffle multiset, shuffle_two common permutation (pair multiset), mismatch panic; every length from 1. " + X,
+         "bootstrap count/length/membership and per-position uniformity (pooled, and separately for the first and last slot of the resamples), data incl. NaN of both signs, jackknife exact leave-one-out, shuffle multiset, shuffle_two common permutation (pair multiset), mismatch panic; every length from 1. " + X,
          "Uniformity can only reject deviations larger than the Bernstein/DKW band of the pooled draws.", "4/C19"),
  "C20": ("proptest scalar triples and point sets for RBF/RQ; dd closed forms, delta-expansion entry bound, cyclic Jacobi smallest eigenvalue + dd quadratic forms",
-         "Scalar symmetry, variance at zero, bounds, monotonicity in distance, closed form; matrix form shape and entry-by-entry agreement with the scalar form; Gram symmetric and PSD within the expansion's rounding bound; constructors reject non-positive parameters. " + X,
+         "Scalar symmetry, variance at zero, bounds, monotonicity in distance, closed form; matrix form shape and entry-by-entry agreement with the scalar form; Gram matrix symmetric within 4 eps (1+|ln(K/var)|) and PSD within the expansion's rounding bound; constructors reject non-positive parameters. " + X,
          "Point sets whose expansion error delta > 1e-3 would only be checked for shape/finiteness (never occurred).", "4/C20"),
 }
 
